@@ -243,6 +243,41 @@ theorem fee_updates_keep_book {W U : Nat} {m m' : Market} {rc : RateCfg} {pr : P
     repeat' (split at h)
     all_goals first | (cases h; done) | (cases h; simp [sameBookB])
 
+/-- **a close of the whole size realises the whole pnl** — whatever was requested: the executed
+size delta is the one rewritten by `check_partial_close` / the cap flag (`decrease_adjusted`,
+`partial_close_keeps_both_positive`); when it equals the position's size (requested in full,
+PROMOTED from a partial request, or CAPPED from a larger request) the decrease realises the
+position's total trader-capped pnl, reports the total uncapped pnl and closes all of
+`size_in_tokens` (C11 for decreases; the pnl is computed for the size actually closed, not for
+the requested one). -/
+theorem promoted_close_realises_whole_pnl {W U : Nat} {m m' : Market} {c : PerpCfg} {pr : Prices} {p p' : Pos} {sd0 wd : Nat}
+    {fl : DecreaseFlags} {r : DecreaseReport} (h : decrease W U m c pr p sd0 wd fl = .ok (m', p', r))
+    (hfull : r.sizeDelta = p.sizeUsd) :
+    ∃ uncapped total : Int,
+      uncappedTotalPnl W p.isLong p.sizeUsd p.sizeTokens pr.index.min pr.index.max = some uncapped ∧
+      cappedTotalPnl W U p.isLong (pnlView m pr p.isLong) pr.index.min pr.index.max uncapped = some total ∧
+      r.pnl = total ∧ r.uncappedPnl = uncapped ∧ r.sizeDeltaTokens = p.sizeTokens := by
+  obtain ⟨_, _, _, _, _, _, _, _, hpnl, _, _⟩ := decrease_parts h
+  have hs := (C11.size_delta_tokens_spec (posPnl_sdt hpnl)).1 hfull.symm
+  unfold posPnl at hpnl
+  have h' := orF_ok hpnl
+  obtain ⟨un, tot, hu, hc, _, _, hall⟩ := C11.partial_close_proportional h'
+  obtain ⟨e1, e2⟩ := hall hfull
+  exact ⟨un, tot, hu, hc, e1, e2, hs⟩
+
+/-- every removal is such a close: a removed position was closed in full and realised its whole pnl. -/
+theorem removal_realises_whole_pnl {W U : Nat} {m m' : Market} {c : PerpCfg} {pr : Prices} {p p' : Pos} {sd0 wd : Nat}
+    {fl : DecreaseFlags} {r : DecreaseReport} (h : decrease W U m c pr p sd0 wd fl = .ok (m', p', r))
+    (hr : r.shouldRemove = true) :
+    r.sizeDelta = p.sizeUsd ∧ r.sizeDeltaTokens = p.sizeTokens ∧
+    ∃ uncapped total : Int,
+      uncappedTotalPnl W p.isLong p.sizeUsd p.sizeTokens pr.index.min pr.index.max = some uncapped ∧
+      cappedTotalPnl W U p.isLong (pnlView m pr p.isLong) pr.index.min pr.index.max uncapped = some total ∧
+      r.pnl = total ∧ r.uncappedPnl = uncapped := by
+  obtain ⟨a, b⟩ := decrease_removed_full h hr
+  obtain ⟨un, tot, hu, hc, e1, e2, _⟩ := promoted_close_realises_whole_pnl h a
+  exact ⟨a, b, un, tot, hu, hc, e1, e2⟩
+
 /-! ### Non-vacuity -/
 example : ((PSys.mk wMarket [wPos]).step 64 (10 ^ 9) wPerp (.dec 0 (10 * 10 ^ 9) 1799000000 {} wPrices)).ps.map (·.collateral)
     = [901000000] := by rfl
